@@ -559,6 +559,8 @@ def _op_validate(ctx, W, st):
     armed = bool(W.fs.open_error or W.fs.read_fail_after is not None or W.fs.write_fail_after is not None)
     if lie or W.dirty:
         ctx.nontrivial = True
+    ctx.sig("%s|%s|cache%d|files%d|lie%d|in%d" % (sorted(W.providers.items()), bool(W.db.writable_cache_path), len(W.fs.files) > 0,
+                                                    min(len(W.fs.files), 5), lie, len(rec)))
     try:
         fee = tx.validate_unspents(W.db)
     except Exception as e:
